@@ -32,7 +32,8 @@ TRIG = {('sin', 'cc'): 'sin_c', ('cos', 'cc'): 'cos_c', ('sin', 'bb'): 'sin_b', 
 class ExprTr:
     """expression translator; fvars: names of field variables, nvars: names of nat variables"""
 
-    def __init__(self, fvars, nvars, alias=None, zexp=False, atoms=None):
+    def __init__(self, fvars, nvars, alias=None, zexp=False, atoms=None, intfold=True):
+        self.intfold = intfold     # fold all-integer sub-expressions into one (ofnat ...)
         self.atoms = atoms or {}   # source text of opaque sub-expressions -> field variable
         self.fvars = set(fvars)
         self.nvars = set(nvars)
@@ -111,6 +112,8 @@ class ExprTr:
         fail(e, 'unsupported expression')
 
     def is_int(self, e):
+        if not self.intfold:
+            return False
         if isinstance(e, ast.Constant):
             return False      # lone constants are field constants
         if isinstance(e, ast.Name):
@@ -315,6 +318,52 @@ class DFTTable:
             fail(b[0], 'unit impulse branch changed')
         t = ExprTr(['const', 'q'], ['nn0'])
         self.entries['dft_delta_q'] = (['(const q : K)', '(nn0 : nat)'], t.fld(rqs[0].value), rqs[0].lineno)
+        # --- n**p: closed forms (q^lower A_l - q^(upper+1) B_u) / (1 - q)^(p+1) for p = 1, 2, 3 ----------
+        npb = [s_ for s_ in fn.body if isinstance(s_, ast.If) and ast.unparse(s_.test) == 'expr == n or (expr.is_Pow and args[1].is_integer and args[1].is_positive and (args[0] == n))']
+        if len(npb) != 1:
+            fail(fn, 'n**p branch of termXq not found')
+        body = npb[0].body
+        pch = [s_ for s_ in body if isinstance(s_, ast.If) and ast.unparse(s_.test) == 'p == 1']
+        if len(pch) != 1:
+            fail(body[0], 'n**p branch: `if p == 1` chain not found')
+        chn, _ = chain(pch[0])
+        if [ast.unparse(t_) for t_, _ in chn] != ['p == 1', 'p == 2', 'p == 3']:
+            fail(pch[0], 'n**p branch: chain of hand-made cases changed')
+        for (t_, bd), pv in zip(chn, (1, 2, 3)):
+            al, bu = assigns(bd, 'A_l'), assigns(bd, 'B_u')
+            if len(al) != 1 or len(bu) != 1 or len(bd) != 2:
+                fail(bd[0], 'n**p branch, p = %d: expected A_l and B_u' % pv)
+            tr_ = ExprTr(['q'], ['lower', 'upper'], intfold=False)
+            self.entries['dft_np%d_A' % pv] = (['(q : K)', '(lower : nat)'], tr_.fld(al[0].value), al[0].lineno)
+            tr_ = ExprTr(['q'], ['lower', 'upper'], intfold=False)
+            self.entries['dft_np%d_B' % pv] = (['(q : K)', '(upper : nat)'], tr_.fld(bu[0].value), bu[0].lineno)
+        rqs = assigns(body, 'result_q')
+        if len(rqs) != 2 or ast.unparse(rqs[0].value) != '(q ** lower - q ** (upper + 1)) / (1 - q)':
+            fail(body[0], 'n**p branch: assignments of result_q changed')
+        tr_ = ExprTr(['const', 'q', 'A_l', 'B_u'], ['lower', 'upper', 'p'], intfold=False)
+        self.entries['dft_np_q'] = (['(const q A_l B_u : K)', '(lower upper p : nat)'], tr_.fld(rqs[1].value), rqs[1].lineno)
+        if [ast.unparse(s_) for s_ in body[-2:]] != ['result = QkTransform(result_q, 0, result_1, result_q)', 'return result']:
+            fail(body[-1], 'n**p branch: construction of the result changed')
+        # --- "* n" (q d/dq) and "* a**n" (q -> q lam**bb) rules, compared textually ---------------------
+        RULES = {
+            "is_multiplied_with(expr, n, 'n', xn_fac)": ['expr = expr / xn_fac[-1]', 'result = self.termXq(expr, n, k, q, lower, upper)',
+                                                         'result.Xq = q * sym.diff(result.Xq, q)'],
+            "is_multiplied_with(expr, n, 'a**n', xn_fac)": ['expr /= xn_fac[-1]', 'expr = sym.simplify(expr)', 'ref = xn_fac[-1].args', 'lam = ref[0]',
+                                                            'bb = ref[1].coeff(n, 1)', 'cc = ref[1].coeff(n, 0)',
+                                                            'result = self.termXq(expr, n, k, q, lower, upper)', 'result.subs(q, q * lam ** bb)',
+                                                            'k0 = sym.arg(lam ** bb) * self.N / 2 / pi',
+                                                            'if abs(lam ** bb) == 1 and k0.is_integer and result.has_special:\n    result.shift_k(k0)\nelse:\n    result.rm_cases()',
+                                                            'result.multiply(const * lam ** cc)', 'return result'],
+        }
+        for test, want in RULES.items():
+            br = [n_ for n_ in ast.walk(fn) if isinstance(n_, ast.If) and ast.unparse(n_.test) == test]
+            if len(br) != 1:
+                fail(fn, 'rule branch `%s` of termXq not found' % test)
+            got = [ast.unparse(s_) for s_ in br[0].body][:len(want)]
+            if got != want:
+                for g_, w_ in zip(got + [''] * len(want), want):
+                    if g_ != w_:
+                        raise Untranslatable('rule branch `%s` changed (line %d): %r, expected %r' % (test, br[0].lineno, g_, w_))
         # --- sinusoid branches: which exponential half goes to which bin -------------
         allifs = [n_ for n_ in ast.walk(fn) if isinstance(n_, ast.If)]
         self.tones = {}
